@@ -32,3 +32,4 @@ static void nv_wl_predict(const struct nv_wl_o* w) { (void)w->nv_unit; }
 static struct nv_iter_o nv_iter_make(const struct nv_dataset_o* d) { struct nv_iter_o it; (void)d->nv_unit; return it; }
 #define NV_ANY_U64 nv_nondet_uint64_t()
 #define NV_ANY_OPAQUE nv_opaque_value()
+static struct nv_range nv_pure_range(int64_t b, int64_t e) { struct nv_range r; r.m_begin = b; r.m_end = e; return r; }
